@@ -72,6 +72,23 @@ Definition subject_tables_agree : bool :=
   forallb (fun k => Bool.eqb (is_manifest_kind k) (kind_has_successors k)) [0; 1; 2; 3; 4; 5] &&
   forallb (fun k => implb (kind_has_subject k) (is_manifest_kind k)) [0; 1; 2; 3; 4; 5].
 
+(* Lock discipline of Store (sync.RWMutex), read off the regenerated call sequences: Delete and
+   GC take the write lock for their whole body (first call Lock, deferred Unlock), every other
+   operation the read lock: Delete and GC are atomic with respect to every other operation, so
+   the histories of the store are sequences of the model's steps as far as Delete and GC are
+   concerned. *)
+Definition takes_lock (w : bool) (l : list str) : bool :=
+  match l with
+  | [a; c] => if w then str_eqb a (b "s.sync.Lock") && str_eqb c (b "s.sync.Unlock")
+              else str_eqb a (b "s.sync.RLock") && str_eqb c (b "s.sync.RUnlock")
+  | _ => false
+  end.
+Definition lock_discipline : bool :=
+  takes_lock true c09_lock_Delete && takes_lock true c09_lock_GC &&
+  forallb (takes_lock false)
+    [c09_lock_Push; c09_lock_Tag; c09_lock_Untag; c09_lock_Predecessors; c09_lock_Resolve;
+     c09_lock_Exists; c09_lock_Fetch; c09_lock_SaveIndex; c09_lock_Tags].
+
 (* Order of effects, read off the call sequences that the translator extracts from the Go
    functions (c09_calls_gc / c09_calls_delete in Generated/GC09.v): does a call to [a] come
    before the first call to [c]? *)
